@@ -144,7 +144,7 @@ def run_invocation(sc, backend, seed, fault=None, schedule=None, clock0=None):
                 elif n == "OrphanedChildException":
                     k = ["orphan"]
                 elif n == "TimedSuspendExecution":
-                    k = ["suspUntil", us(exc.scheduled_timestamp)]
+                    k = ["suspUntil", us(exc.scheduled_timestamp), float(exc.scheduled_timestamp)]
                 elif n == "SuspendExecution":
                     k = ["susp"]
                 elif isinstance(exc, Exception):
@@ -215,8 +215,26 @@ def run_invocation(sc, backend, seed, fault=None, schedule=None, clock0=None):
         exmod.ConcurrentExecutor._on_task_complete = on_task_complete
         ExecutableWithState.reset_to_pending = reset_to_pending
         exmod.heapq = HeapqProxy
-        sim.trace_hook = lambda ev: pe.append(["begin", us(sim.clock), ev["idx"]]) if ev["op"] == "pool.begin" and ev.get("idx") is not None else (
-            pe.append(["submit", us(sim.clock), ev["t"]]) if ev["op"] == "pool.submit" and ev.get("pool") == "pool" else None)
+        def fin_of(exc):
+            n = type(exc).__name__ if exc is not None else None
+            if exc is None:
+                return ["ok"]
+            if n == "OrphanedChildException":
+                return ["orphan"]
+            if n == "TimedSuspendExecution":
+                return ["suspUntil", us(exc.scheduled_timestamp), float(exc.scheduled_timestamp)]
+            if n == "SuspendExecution":
+                return ["susp"]
+            return ["err"] if isinstance(exc, Exception) else ["fatal"]
+
+        def trace_hook(ev):
+            if ev["op"] == "pool.begin" and ev.get("idx") is not None:
+                pe.append(["begin", us(sim.clock), ev["idx"]])
+            elif ev["op"] == "pool.end" and ev.get("idx") is not None and ev.get("pool") == "pool":
+                pe.append(["end", us(sim.clock), ev["idx"]] + fin_of(ev.get("exc")))
+            elif ev["op"] == "pool.submit" and ev.get("pool") == "pool":
+                pe.append(["submit", us(sim.clock), ev["t"]])
+        sim.trace_hook = trace_hook
 
         def run_actions(ctx, actions, tag):
             out = []
@@ -867,11 +885,24 @@ def derive_par_actions(pevents):
     i = 0
     n_sub = 0
     pending_resubmit = None
+    # The timer heap orders equal resume instants by insertion, and instants that differ only in the last bits of the
+    # float by value; rounding them to microseconds would make such pairs look equal.  Instants falling into the same
+    # microsecond are therefore spread over the nanoseconds just below it, in float order.
+    buckets = {}
+    for e_ in evs:
+        if e_[0] in ("finish", "end") and e_[3] == "suspUntil" and len(e_) > 5:
+            buckets.setdefault(e_[4], set()).add(e_[5])
+
+    def resume_ns(e_):
+        if len(e_) <= 5:
+            return e_[4] * 1000
+        vals = sorted(buckets[e_[4]])
+        return e_[4] * 1000 - (len(vals) - 1 - vals.index(e_[5]))
     while i < len(evs):
         e = evs[i]
         t = e[1]
-        if e[0] in ("begin", "finish", "timer.pop", "reset", "exec.end", "cancel", "submit", "refresh.fail") and t > last_t:
-            acts.append(["tick", t - last_t])
+        if e[0] in ("begin", "end", "finish", "timer.pop", "reset", "exec.end", "cancel", "submit", "refresh.fail") and t > last_t:
+            acts.append(["tick", (t - last_t) * 1000])      # the model's clock runs in nanoseconds (see resume_ns)
             last_t = t
         if e[0] in ("timer.pop", "exec.end") and pending_resubmit is not None:
             acts.append(["resubmit", pending_resubmit, True])     # returned without submitting: the decision had been taken
@@ -881,9 +912,11 @@ def derive_par_actions(pevents):
             n_sub += 1
         elif e[0] == "begin":
             acts.append(["begin", e[2]])
+        elif e[0] == "end":
+            acts.append(["taskEnd", e[2]] + ([e[3], max(0, resume_ns(e) - start[1] * 1000)] if e[3] == "suspUntil" else e[3:4]))
         elif e[0] == "finish":
             # resume instants are logged relative to the start of the invocation; the model's clock starts with the executor
-            acts.append(["finish", e[2]] + ([e[3], max(0, e[4] - start[1])] if e[3] == "suspUntil" else e[3:]))
+            acts.append(["finish", e[2]] + ([e[3], max(0, resume_ns(e) - start[1] * 1000)] if e[3] == "suspUntil" else e[3:]))
         elif e[0] == "cancel":
             acts.append(["cancel", e[2]])
         elif e[0] == "timer.pop" and any(f[0] == "reset" and f[2] == e[2] for f in evs[i + 1:next(
